@@ -15,7 +15,7 @@ use serde_json::json;
 pub fn total(ctx: &mut Ctx, id: &str, src: &str, c: &Cfg, range: Range, family: &str) -> Option<u64> {
     let in_ok = fmt::parses(src, c);
     // depth ramps and extreme configurations also run on the stack a CLI worker thread has
-    if family == "depth-ramp" || family == "extreme-config" {
+    if family.starts_with("depth-ramp") || family == "extreme-config" {
         let o2 = ctx.eval_small_stack(&format!("{id}#2MiB"), src, c, range);
         if let Err(FmtErr::Panic(m)) = &o2.result {
             let mut v = case_json(id, src, c, range);
@@ -157,11 +157,17 @@ fn ramp(family: usize, d: usize) -> String {
         6 => format!("{}x(){}\n", "run(function() ".repeat(d), " end)".repeat(d)),
         7 => format!("{}1{}\n", "call({ key = function() return ".repeat(d), " end })".repeat(d)),
         8 => format!("local x = {}1{}\n", "f(a, { g(".repeat(d), ") }, b)".repeat(d)),
-        _ => format!("{}x(){}\n", "obj:method(arg, function(p) ".repeat(d), " end)".repeat(d)),
+        9 => format!("{}x(){}\n", "obj:method(arg, function(p) ".repeat(d), " end)".repeat(d)),
+        10 => format!("local x = {}\"{}\"{}\n", "{ ".repeat(d), "long element ".repeat(11), " }".repeat(d)),
+        11 => format!("local x = {}1{}\n", "{ key = ".repeat(d), " }".repeat(d)),
+        12 => format!("local x = {}1{}\n", "{ a, { b }, ".repeat(d), " }".repeat(d)),
+        _ => format!("local x = {}1{}\n", "t[".repeat(d), "]".repeat(d)),
     }
 }
 
-const N_RAMPS: usize = 10;
+const N_RAMP_FAMILIES: usize = 14;
+const RAMP_WIDTHS: [usize; 3] = [120, 40, 1];
+const N_RAMPS: usize = N_RAMP_FAMILIES * 3;
 
 pub fn n_items(w: &Work, ctx: &Ctx) -> usize {
     let seeded = if ctx.quick() { 600 } else { 30000 };
@@ -249,35 +255,48 @@ pub fn run_item(w: &Work, ctx: &mut Ctx, mut i: usize) {
         }
     }
     if i < N_RAMPS {
-        let mut prev: Option<u64> = None;
-        let mut d = 4;
-        let wd = if i == 3 { 40 } else { 120 };
-        // callback / table ramps are steeper: smaller steps, stop at the first finding so that a
-        // super-polynomial regression is reported from a case that still terminates quickly
-        let (step, dmax) = if i >= 6 { (2, 24) } else { (4, 32) };
+        // item = ramp family x width (width index 0 is the family's original width)
+        let wi = i / N_RAMP_FAMILIES;
+        let i = i % N_RAMP_FAMILIES;
+        let wd = match wi {
+            0 => if i == 3 { 40 } else { 120 },
+            1 => if i == 3 { 120 } else { 40 },
+            _ => RAMP_WIDTHS[2],
+        };
+        let wtag = if wi == 0 { String::new() } else { format!(":w{wd}") };
+        // Depth grows in steps of 2. A polynomial law has step ratios that fall towards 1
+        // ((d+2)/d)^k strictly decreasing in d); an exponential one keeps its ratio. A layout regime
+        // change (the text stops fitting the width) gives a burst of large ratios that then decay.
+        // So: more than polynomial = over three consecutive steps at depths >= 8 the ratio does
+        // not decay (each >= 0.9 x the previous) and all three are >= 2. The ramp stops at its first
+        // finding so that a regression is reported from a case that still terminates quickly.
+        let dmax = if (6..=9).contains(&i) { 24 } else { 32 };
+        let fam = format!("depth-ramp:ramp{i}{wtag}");
         let findings_before = ctx.findings.len();
+        let mut series: Vec<(usize, u64)> = Vec::new();
+        let mut d = 4;
         while d <= dmax && ctx.findings.len() == findings_before {
             let src = ramp(i, d);
             let mut c = Cfg::with_syntax("Lua51");
             c.column_width = wd;
-            if let Some(t) = total(ctx, &format!("c07:ramp:{i}:d{d}"), &src, &c, None, "depth-ramp") {
-                if let Some(p) = prev {
-                    // (d+4)/d <= 2 for d >= 4, so a cubic law gives at most 8x; allow 12x
-                    // (steps of 2: (d+2)/d <= 1.5, cubic 3.4x; allow 6x)
-                    let bound = if step == 2 { 6 } else { 12 };
-                    if p > 50 && t > bound * p {
+            if let Some(t) = total(ctx, &format!("c07:ramp:{i}{wtag}:d{d}"), &src, &c, None, &fam) {
+                series.push((d, t));
+                ctx.count_n(&format!("ramp{i}{wtag}.ticks_at_d{d}"), t);
+                let n = series.len();
+                if n >= 4 && series[n - 3].0 >= 8 {
+                    let r = |k: usize| series[k].1 as f64 / series[k - 1].1.max(1) as f64;
+                    let (r1, r2, r3) = (r(n - 3), r(n - 2), r(n - 1));
+                    if series[n - 4].1 > 50 && r1 >= 2.0 && r2 >= 2.0 && r3 >= 2.0 && r3 >= 0.9 * r2 && r2 >= 0.9 * r1 {
                         ctx.finding(
                             "step-growth",
-                            &format!("ticks-growth:ramp{i}"),
-                            &format!("logical steps grew from {p} (depth {}) to {t} (depth {d}): more than polynomial", d - step),
-                            case_json(&format!("c07:ramp:{i}:d{d}"), &src, &c, None),
+                            &format!("ticks-growth:ramp{i}{wtag}"),
+                            &format!("logical steps per depth {:?}: the last three step ratios are >= 2 and do not decay (more than polynomial)", &series[n - 4..]),
+                            case_json(&format!("c07:ramp:{i}{wtag}:d{d}"), &src, &c, None),
                         );
                     }
                 }
-                prev = Some(t);
-                ctx.count_n(&format!("ramp{i}.ticks_at_d{d}"), t);
             }
-            d += step;
+            d += 2;
         }
         return;
     }
